@@ -71,13 +71,13 @@ inductive Slice (α : Type) where
 /-- One backing array with its per-pid slice headers.  `none` = a cell of a
     freshly `make`d array (zero value); `bad` = an index-out-of-range panic. -/
 structure Arena (α : Type) where
-  back : List (Option α)
+  back : Array (Option α)
   sl : List (Slice α)
   bad : Bool := false
   deriving Repr
 
-def readCells {α : Type} [Inhabited α] (back : List (Option α)) (st len : Nat) : List α :=
-  ((back.drop st).take len).map (fun c => c.getD default)
+def readCells {α : Type} [Inhabited α] (back : Array (Option α)) (st len : Nat) : List α :=
+  (back.extract st (st + len)).toList.map (fun c => c.getD default)
 
 /-- `FreqNorms[pid] = append(FreqNorms[pid], x)`: in place at `start + len` while
     `len < cap` (cap = to the END of the backing array, whoever owns that cell). -/
@@ -85,8 +85,8 @@ def Arena.push {α : Type} [Inhabited α] (A : Arena α) (pid : Nat) (x : α) : 
   match A.sl[pid]? with
   | none => { A with bad := true }
   | some (.view st len) =>
-    if st + len < A.back.length then
-      { A with back := A.back.set (st + len) (some x), sl := A.sl.set pid (.view st (len + 1)) }
+    if st + len < A.back.size then
+      { A with back := A.back.setIfInBounds (st + len) (some x), sl := A.sl.set pid (.view st (len + 1)) }
     else { A with sl := A.sl.set pid (.own (readCells A.back st len ++ [x])) }
   | some (.own cs) => { A with sl := A.sl.set pid (.own (cs ++ [x])) }
 
@@ -107,8 +107,8 @@ def carve {α : Type} : Nat → List Nat → List (Slice α)
 
 /-- `if cap(backing) >= tot { backing = backing[:tot] } else { backing = make(tot) }`:
     `stale` is the old array up to its capacity; reslicing keeps content and capacity. -/
-def mkBacking {α : Type} (stale : List α) (tot : Nat) : List (Option α) :=
-  if tot ≤ stale.length then stale.map some else List.replicate tot none
+def mkBacking {α : Type} (stale : List α) (tot : Nat) : Array (Option α) :=
+  if tot ≤ stale.length then (stale.map some).toArray else Array.replicate tot none
 
 /-! ### Count pass (`realloc`, `visitField`) -/
 
